@@ -53,7 +53,29 @@ def ctor(level):
         "molecule": lambda t: gbigsmiles.Molecule(t),
         "system": lambda t: gbigsmiles.System(t),
         "stochastic-call": lambda t: _StochCall(gbigsmiles, t),
+        "token-call": lambda t: _TokenCall(gbigsmiles, t),
     }[level]
+
+
+class _TokenCall:
+    """misuse of the call interface: SmilesToken.generate(prefix=<molecule without open descriptor>)"""
+
+    generable = True
+
+    def __init__(self, gbigsmiles, t):
+        import numpy as np
+
+        self.text = t
+        self.pre = gbigsmiles.Molecule(t[0]).generate(rng=np.random.default_rng(11))
+        if len(self.pre.bond_descriptors) != 0:
+            raise RuntimeError("harness: prefix molecule is not complete")
+        self.tok = gbigsmiles.SmilesToken(t[1], 0, 5)
+
+    def generate(self, rng):
+        return self.tok.generate(prefix=self.pre, rng=rng)
+
+    def __str__(self):
+        return f"SmilesToken({self.text[1]!r}).generate(prefix=Molecule({self.text[0]!r}).generate())"
 
 
 class _StochCall:
@@ -259,6 +281,28 @@ def op_prefix_two_open(rng, m):
     return "stochastic-call", (print_desc(Desc(s.left.sym, s.left.id)) + pre.to_text() + print_desc(Desc(s.left.sym, s.left.id)), s.to_text(True, 0, False)), "generate"
 
 
+def _closed_object(rng):
+    ctx = gen.Ctx(rng, small=True)
+    u = ctx.unit([ctx.lt(), ctx.gt()])
+    ends = [ctx.end(ctx.lt()), ctx.end(ctx.gt())]
+    return ctx, StochAst(gen.D(""), gen.D(""), [u], ends, gen._dist_for(ctx, [u], 2))
+
+
+def op_token_after_closed_object(rng, m):
+    """a token (or a second object) written behind a stochastic object whose right terminal is the empty descriptor []: the finished, closed
+    molecule offers no descriptor to attach to -- generation has to refuse, not to drop the polymer and return the token"""
+    ctx, s = _closed_object(rng)
+    tail = ctx.plain().to_text() if rng.random() < 0.7 else _closed_object(rng)[1].to_text(True, 0, False)
+    return "molecule", s.to_text(True, 0, False) + tail, "generate"
+
+
+def op_complete_prefix_to_token(rng, m):
+    """SmilesToken.generate(prefix=<fully generated molecule>): a prefix without open descriptor"""
+    ctx, s = _closed_object(rng)
+    tok = ctx.unit([ctx.lt()], ctx.pool1).to_text()
+    return "token-call", (s.to_text(True, 0, False), tok), "generate"
+
+
 def op_system_nongenerable(rng, m):
     return "system", m.to_text() + ".|30%|CCO.|70%|", "nongenerable"
 
@@ -280,6 +324,8 @@ OPS = {
     "prefix-descriptor-differs-direct-call": op_wrong_prefix_direct,
     "prefix-with-two-open-descriptors": op_prefix_two_open,
     "system-not-generable": op_system_nongenerable,
+    "token-after-closed-object": op_token_after_closed_object,
+    "complete-prefix-handed-to-token": op_complete_prefix_to_token,
 }
 
 
